@@ -113,6 +113,11 @@ Proof.
   - left. apply in_map_iff in H. destruct H as [e' [<- He']]. rewrite flip_involutive. assumption.
 Qed.
 
+Lemma okoff_oneg p o : okoff p o = okoff p (oneg o).
+Proof.
+  assert (H : forall x, (- x =? 0)%Z = (x =? 0)%Z) by (intros x; apply eq_true_iff_eq; rewrite !Z.eqb_eq; lia).
+  destruct p as [[p0 p1] p2], o as [[x y] z]. unfold okoff, oneg. rewrite !H. reflexivity.
+Qed.
 Section GraphMirror.
 Variables (n : nat) (p : pbc3) (E : list ipair).
 Hypothesis wf : wf_E n p E = true.
@@ -125,6 +130,14 @@ Proof.
   - specialize (wf _ H). simpl in wf. rewrite !andb_true_iff, !Nat.ltb_lt in wf. tauto.
   - apply in_map_iff in H. destruct H as [[[i' j'] o'] [Heq He]]. simpl in Heq. injection Heq as <- <- <-.
     specialize (wf _ He). simpl in wf. rewrite !andb_true_iff, !Nat.ltb_lt in wf. tauto.
+Qed.
+
+Lemma wf_sym_ok i j o : In (i, j, o) (sym E) -> okoff p o = true.
+Proof.
+  unfold wf_E in wf. rewrite forallb_forall in wf. unfold sym. intros H. apply in_app_or in H. destruct H as [H|H].
+  - specialize (wf _ H). simpl in wf. rewrite !andb_true_iff in wf. tauto.
+  - apply in_map_iff in H. destruct H as [[[i' j'] o'] [Heq He]]. simpl in Heq. injection Heq as <- <- <-.
+    specialize (wf _ He). simpl in wf. rewrite !andb_true_iff in wf. rewrite <- (okoff_oneg p o'). tauto.
 Qed.
 
 Lemma nth_tab i : i < n -> nth i tab [] = collect p (sym E) i.
@@ -334,6 +347,9 @@ Proof.
   - unfold comb, zb3. rewrite Hh0, Hh1, Hh2. reflexivity.
 Qed.
 
+Lemma mask_ozero p : mask p ozero = 0%nat.
+Proof. destruct p as [[[] []] []]; reflexivity. Qed.
+
 Section MetricLayer.
 Variables a b c : v3.
 Variable pos : nat -> v3.
@@ -379,12 +395,12 @@ Lemma img2_eq u v o :
   img2 u v o = img_d2 a b c pos (u mod n) (v mod n) (comb p (unmask p (u / n)) (unmask p (v / n)) o).
 Proof.
   unfold img2, img_d2, pos2, rep_pos, cell2, rep_cell.
-  destruct (unmask p (u / n)) as [[ux uy] uz]. destruct (unmask p (v / n)) as [[vx vy] vz].
+  destruct (unmask p (u / n)) as [[ux uy] uz]. destruct (unmask p (v / n)) as [[wx wy] wz].
   destruct o as [[x y] z]. destruct p as [[p0 p1] p2]. unfold comb.
   set (pi := pos (u mod n)). set (pj := pos (v mod n)).
   match goal with |- dot ?d1 ?d1 = dot ?d2 ?d2 => assert (Hd : d1 = d2); [|rewrite Hd; reflexivity] end.
   destruct a as [ax ay az], b as [bx by_ bz], c as [cx cy cz], pi as [ix iy iz], pj as [jx jy jz].
-  destruct p0, p1, p2; unfold dbl, sub, add, lat, scale; simpl; f_equal; ring.
+  destruct p0, p1, p2; unfold dbl, lat, sub, add, scale, fst, snd; cbn [ZV3.vx ZV3.vy ZV3.vz]; f_equal; ring.
 Qed.
 
 (* the 2x minimum-image graph is the quotient of the infinite bonded graph by (2Z)^k: copies cu, cv of
@@ -428,54 +444,601 @@ Theorem metric_eq_graph tab1 tab2 :
 Proof.
   intros H1 H2. unfold get_dim_metric, get_dim_graph. apply dim_from_ext.
   - intros i j Hi Hj. apply eq_true_iff_eq.
-    rewrite (graph_1x_is_quotient tab1 H1 i j Hi Hj), (adj1_of_spec n p E wf i j Hi).
+    rewrite (graph_1x_is_quotient tab1 H1 i j Hi Hj), (adj1_of_spec n p E i j Hi).
     destruct (Nat.eq_dec i j) as [->|Hne]; [tauto|].
     split; (intros [H|[o H]]; [left; assumption | right; exists o]).
     + destruct H as [Hok Hb]. apply E_exact; try assumption. intros Heq. injection Heq as Heq _. contradiction.
-    + pose proof (wf_sym n p E wf _ _ _ H) as [_ _].
-      assert (Hok : okoff p o = true).
-      { clear - wf H. unfold wf_E in wf. rewrite forallb_forall in wf. unfold sym in H. apply in_app_or in H. destruct H as [H|H].
-        - specialize (wf _ H). simpl in wf. rewrite !andb_true_iff in wf. tauto.
-        - apply in_map_iff in H. destruct H as [[[i' j'] o'] [Heq He]]. simpl in Heq. injection Heq as <- <- <-.
-          specialize (wf _ He). simpl in wf. rewrite !andb_true_iff in wf. destruct wf as [_ Hok].
-          destruct p as [[p0 p1] p2], o' as [[x y] z]. unfold okoff, oneg in *. rewrite !andb_true_iff, !orb_true_iff, !Z.eqb_eq in *. lia. }
+    + assert (Hok : okoff p o = true) by (apply (wf_sym_ok n p E wf _ _ _ H)).
       split; [assumption|]. apply E_exact; try assumption. intros Heq. injection Heq as Heq _. contradiction.
   - intros u v Hu Hv. fold k in Hu, Hv. apply eq_true_iff_eq.
     assert (Hun : (u mod n < n)%nat) by (apply Nat.mod_upper_bound; lia).
     assert (Hvn : (v mod n < n)%nat) by (apply Nat.mod_upper_bound; lia).
     rewrite (graph_2x_is_quotient tab2 H2 u v Hu Hv). unfold adj2_of, adj2.
-    rewrite orb_true_iff, Nat.eqb_eq, (lab_of_spec n p E wf _ _ _ Hun).
+    rewrite orb_true_iff, Nat.eqb_eq, (lab_of_spec n p E _ _ _ Hun).
     split; (intros [H|[o H]]; [left; assumption|]).
     + destruct H as [Hok [Hb Hm]].
       destruct (Nat.eq_dec u v) as [->|Hne]; [left; reflexivity|]. right. exists o. split; [|assumption].
       apply E_exact; try assumption. intros Heq. injection Heq as Hi Ho. subst o.
       (* same atom, zero offset, equal parity: then u = v *)
-      apply Hne. assert (Hz : mask p ozero = 0%nat) by (destruct p as [[[] []] []]; reflexivity). rewrite Hz in Hm.
+      apply Hne. rewrite mask_ozero in Hm.
       symmetry in Hm. apply Nat.lxor_eq in Hm.
       rewrite (Nat.div_mod u n), (Nat.div_mod v n) by lia. rewrite Hm, Hi. reflexivity.
-    + destruct H as [Hin Hm]. right. exists o.
-      assert (Hok : okoff p o = true).
-      { clear - wf Hin. unfold wf_E in wf. rewrite forallb_forall in wf. unfold sym in Hin. apply in_app_or in Hin. destruct Hin as [H|H].
-        - specialize (wf _ H). simpl in wf. rewrite !andb_true_iff in wf. tauto.
-        - apply in_map_iff in H. destruct H as [[[i' j'] o'] [Heq He]]. simpl in Heq. injection Heq as <- <- <-.
-          specialize (wf _ He). simpl in wf. rewrite !andb_true_iff in wf. destruct wf as [_ Hok].
-          destruct p as [[p0 p1] p2], o' as [[x y] z]. unfold okoff, oneg in *. rewrite !andb_true_iff, !orb_true_iff, !Z.eqb_eq in *. lia. }
+    + destruct H as [Hin Hm].
+      destruct (Nat.eq_dec u v) as [Heq|Hne]; [left; assumption|]. right. exists o.
+      assert (Hok : okoff p o = true) by (apply (wf_sym_ok n p E wf _ _ _ Hin)).
       split; [assumption|]. split; [|assumption].
-      destruct (Nat.eq_dec u v) as [->|Hne]; [|].
-      * (* u = v handled by the left disjunct of the statement; still need bonded: use E_exact when (i,o) <> (i,0) *)
-        destruct (oeqb o ozero) eqn:Eo.
-        -- (* zero self-offset: distance 0 *)
-           destruct o as [[x y] z]. unfold oeqb, ozero in Eo. rewrite !andb_true_iff, !Z.eqb_eq in Eo. destruct Eo as [[-> ->] ->].
-           unfold bonded, img_d2.
-           pose proof (t_range _ _ Hvn Hvn) as Ht.
-           replace (dot _ _) with 0; [nia|].
-           destruct (pos (v mod n)) as [ix iy iz], a as [ax ay az], b as [bx by_ bz], c as [cx cy cz].
-           unfold dot, sub, lat, add, scale; simpl; ring.
-        -- apply E_exact; try assumption. intros Heq. injection Heq as Ho. subst o.
-           unfold oeqb, ozero in Eo. simpl in Eo. discriminate.
-      * apply E_exact; try assumption. intros Heq. injection Heq as Hi Ho. subst o.
-        apply Hne. assert (Hz : mask p ozero = 0%nat) by (destruct p as [[[] []] []]; reflexivity). rewrite Hz in Hm.
-        symmetry in Hm. apply Nat.lxor_eq in Hm.
-        rewrite (Nat.div_mod u n), (Nat.div_mod v n) by lia. rewrite Hm, Hi. reflexivity.
+      apply E_exact; try assumption. intros Heq. injection Heq as Hi Ho. subst o.
+      apply Hne. rewrite mask_ozero in Hm.
+      symmetry in Hm. apply Nat.lxor_eq in Hm.
+      rewrite (Nat.div_mod u n), (Nat.div_mod v n) by lia. rewrite Hm, Hi. reflexivity.
 Qed.
 End MetricLayer.
+
+(* non-vacuity of the hypotheses of Part 3: one atom of radius 1 in a cell of edge 4 (grid units),
+   periodic along x only, threshold 2: the atom touches its own images at +-a, nothing else. *)
+Section NonVacuity.
+Let a := mk3 4 0 0.
+Let b := mk3 0 4 0.
+Let c := mk3 0 0 4.
+Let pos (i : nat) := mk3 1 1 1.
+Let p : pbc3 := (true, false, false).
+Let rad (i : nat) := 1.
+Let thr := 2.
+Let E : list ipair := [(0%nat, 0%nat, (1, 0, 0))].
+Let tab1 (i j : nat) : option Z := Some 0.
+Let tab2 (u v : nat) : option Z := if (u =? v)%nat then Some 0 else Some 16.
+
+Lemma ex_okoff o : okoff p o = true -> exists x, o = (x, 0, 0).
+Proof. destruct o as [[x y] z]. unfold okoff, p. simpl. rewrite andb_true_iff, !Z.eqb_eq. intros [-> ->]. exists x. reflexivity. Qed.
+
+Lemma ex_img2_01 x : img2 a b c pos 1 p 0 1 (x, 0, 0) = 16 * (1 + 2 * x) * (1 + 2 * x).
+Proof.
+  rewrite img2_eq.
+  let t := eval vm_compute in (unmask p (0 / 1)) in change (unmask p (0 / 1)) with t.
+  let t := eval vm_compute in (unmask p (1 / 1)) in change (unmask p (1 / 1)) with t.
+  unfold comb, p, dbl, img_d2, lat, sub, add, scale, dot, a, b, c, pos. cbn [ZV3.vx ZV3.vy ZV3.vz]. ring.
+Qed.
+Lemma ex_img2_10 x : img2 a b c pos 1 p 1 0 (x, 0, 0) = 16 * (2 * x - 1) * (2 * x - 1).
+Proof.
+  rewrite img2_eq.
+  let t := eval vm_compute in (unmask p (0 / 1)) in change (unmask p (0 / 1)) with t.
+  let t := eval vm_compute in (unmask p (1 / 1)) in change (unmask p (1 / 1)) with t.
+  unfold comb, p, dbl, img_d2, lat, sub, add, scale, dot, a, b, c, pos. cbn [ZV3.vx ZV3.vy ZV3.vz]. ring.
+Qed.
+
+Example metric_hypotheses_satisfiable :
+  tab_spec p (img_d2 a b c pos) 1 (cutoff 1 rad thr) tab1
+  /\ tab_spec p (img2 a b c pos 1 p) (2 ^ npbc p * 1) (cutoff 1 rad thr) tab2
+  /\ wf_E 1 p E = true
+  /\ (forall i j o, (i < 1)%nat -> (j < 1)%nat -> okoff p o = true -> (i, o) <> (j, ozero) ->
+        (In (i, j, o) (sym E) <-> bonded a b c pos rad thr i j o))
+  /\ get_dim_metric 1 p rad thr tab1 tab2 = Some 1 /\ get_dim_graph 1 p E = Some 1.
+Proof.
+  split; [|split; [|split; [|split; [|split]]]].
+  - intros i j Hi Hj Hne. lia.
+  - intros i j Hi Hj Hne. change (2 ^ npbc p * 1)%nat with 2%nat in Hi, Hj.
+    assert (Hc : (i = 0 /\ j = 1)%nat \/ (i = 1 /\ j = 0)%nat) by lia.
+    destruct Hc as [[-> ->]|[-> ->]]; (split; [|split]).
+    + exists (0, 0, 0). split; reflexivity.
+    + intros o Ho. destruct (ex_okoff o Ho) as [x ->]. rewrite ex_img2_01. nia.
+    + vm_compute. discriminate.
+    + exists (0, 0, 0). split; reflexivity.
+    + intros o Ho. destruct (ex_okoff o Ho) as [x ->]. rewrite ex_img2_10. nia.
+    + vm_compute. discriminate.
+  - reflexivity.
+  - intros i j o Hi Hj Ho Hne. assert (i = 0%nat) by lia. assert (j = 0%nat) by lia. subst i j.
+    destruct (ex_okoff o Ho) as [x ->]. unfold bonded, img_d2, lat, sub, add, scale, dot, a, b, c, pos, rad, thr, E, sym. cbn [ZV3.vx ZV3.vy ZV3.vz app map flip oneg In].
+    split.
+    + intros [H|[H|[]]]; inversion H; lia.
+    + intros H. assert (Hx : x = 1 \/ x = -1 \/ x = 0) by nia. destruct Hx as [-> | [-> | ->]]; [left; reflexivity | right; left; reflexivity |].
+      exfalso. apply Hne. reflexivity.
+  - vm_compute. reflexivity.
+  - vm_compute. reflexivity.
+Qed.
+End NonVacuity.
+
+(* ========================================================================================== *)
+(* Part 4: invariance clauses -- what is proved is the algebra; the statements about [dim_spec]
+   itself are kept visible below and are *tested* on every generated pair (relation same_spec). *)
+
+(* lattice shifts of atoms: r_i' = r_i + s_i.cell.  The image distances are those of the original
+   structure at the re-labelled offset  o - s_i + s_j ... *)
+Lemma img_d2_shift a b c pos (s : nat -> off) i j o :
+  img_d2 a b c (fun i => let '(x, y, z) := s i in add (pos i) (lat a b c x y z)) i j o
+  = img_d2 a b c pos i j (oadd (osub o (s i)) (s j)).
+Proof.
+  unfold img_d2. cbv beta. destruct (s i) as [[sx sy] sz], (s j) as [[tx ty] tz], o as [[x y] z].
+  unfold osub, oneg, oadd. cbv beta iota.
+  match goal with |- dot ?d1 ?d1 = dot ?d2 ?d2 => assert (Hd : d1 = d2); [|rewrite Hd; reflexivity] end.
+  destruct a as [ax ay az], b as [bx by_ bz], c as [cx cy cz], (pos i) as [ix iy iz], (pos j) as [jx jy jz].
+  unfold lat, sub, add, scale; cbn [ZV3.vx ZV3.vy ZV3.vz]; f_equal; ring.
+Qed.
+Lemma okoff_oadd p u v : okoff p u = true -> okoff p v = true -> okoff p (oadd u v) = true.
+Proof.
+  destruct p as [[p0 p1] p2], u as [[x y] z], v as [[x' y'] z']. unfold okoff, oadd.
+  rewrite !andb_true_iff, !orb_true_iff, !Z.eqb_eq.
+  intros [[H0 H1] H2] [[G0 G1] G2].
+  repeat split; [destruct H0, G0 | destruct H1, G1 | destruct H2, G2]; auto; right; lia.
+Qed.
+(* ... so the 1x bond relation (exists an admissible offset within reach) does not change: the
+   None / not-None answer is invariant under lattice shifts of atoms along periodic axes *)
+Theorem bonded_exists_shift_invariant a b c pos rad thr p (s : nat -> off) i j :
+  (forall i, okoff p (s i) = true) ->
+  ((exists o, okoff p o = true /\ bonded a b c (fun i => let '(x, y, z) := s i in add (pos i) (lat a b c x y z)) rad thr i j o)
+   <-> (exists o, okoff p o = true /\ bonded a b c pos rad thr i j o)).
+Proof.
+  intros Hs. unfold bonded. split.
+  - intros [o [Hok Hb]]. rewrite img_d2_shift in Hb. exists (oadd (osub o (s i)) (s j)). split; [|exact Hb].
+    apply okoff_oadd; [apply okoff_oadd; [assumption | rewrite <- okoff_oneg; apply Hs] | apply Hs].
+  - intros [o [Hok Hb]]. exists (oadd (osub o (s j)) (s i)). split.
+    + apply okoff_oadd; [apply okoff_oadd; [assumption | rewrite <- okoff_oneg; apply Hs] | apply Hs].
+    + rewrite img_d2_shift.
+      replace (oadd (osub (oadd (osub o (s j)) (s i)) (s i)) (s j)) with o; [exact Hb|].
+      destruct o as [[x y] z], (s i) as [[sx sy] sz], (s j) as [[tx ty] tz]. unfold osub, oneg, oadd. f_equal; [f_equal|]; ring.
+Qed.
+
+(* voltages: with potentials re-labelled by the shifts, every cycle voltage is unchanged *)
+Lemma voltage_shift_invariant (pi pj si sj o : off) :
+  osub (oadd (osub pi si) (oadd (osub o sj) si)) (osub pj sj) = osub (oadd pi o) pj.
+Proof.
+  destruct pi as [[a1 a2] a3], pj as [[b1 b2] b3], si as [[c1 c2] c3], sj as [[d1 d2] d3], o as [[x y] z].
+  unfold osub, oneg, oadd. f_equal; [f_equal|]; ring.
+Qed.
+(* basis change / any additive map of offsets: the voltage of the image is the image of the voltage *)
+Definition lin (U : off * off * off) (o : off) : off :=
+  let '(r0, r1, r2) := U in let '(x, y, z) := o in oadd (oscale x r0) (oadd (oscale y r1) (oscale z r2)).
+Lemma voltage_linear U pi pj o : lin U (osub (oadd pi o) pj) = osub (oadd (lin U pi) (lin U o)) (lin U pj).
+Proof.
+  destruct U as [[[[u00 u01] u02] [[u10 u11] u12]] [[u20 u21] u22]].
+  destruct pi as [[a1 a2] a3], pj as [[b1 b2] b3], o as [[x y] z].
+  unfold lin, osub, oneg, oscale, oadd. f_equal; [f_equal|]; ring.
+Qed.
+(* parity masks are additive: the 2x label of a re-labelled pair is the xor of the labels *)
+Lemma mask_oadd p u v : mask p (oadd u v) = Nat.lxor (mask p u) (mask p v).
+Proof.
+  destruct u as [[x y] z], v as [[x' y'] z']. unfold mask, parity, oadd. rewrite !Z.odd_add.
+  destruct p as [[[] []] []], (Z.odd x), (Z.odd y), (Z.odd z), (Z.odd x'), (Z.odd y'), (Z.odd z'); reflexivity.
+Qed.
+
+(* ---- statements kept visible --------------------------------------------------------------- *)
+(* re-presentations of the same discrete network *)
+Inductive represent (n : nat) : list ipair -> list ipair -> Prop :=
+| rep_shift (s : nat -> off) E :
+    represent n E (map (fun e => let '(i, j, o) := e in (i, j, oadd (osub o (s j)) (s i))) E)
+| rep_atoms (pi : nat -> nat) E :
+    (forall i j, (i < n)%nat -> (j < n)%nat -> pi i = pi j -> i = j) -> (forall i, (i < n)%nat -> (pi i < n)%nat) ->
+    represent n E (map (fun e => let '(i, j, o) := e in (pi i, pi j, o)) E)
+| rep_basis U Uinv E :
+    (forall o, lin Uinv (lin U o) = o) -> (forall o, lin U (lin Uinv o) = o) ->
+    represent n E (map (fun e => let '(i, j, o) := e in (i, j, lin U o)) E).
+
+(* NOT PROVED (tested on every generated pair by [same_spec]): the specification does not depend on
+   the presentation.  Missing: a theory of [rankZ]/[rank2] (that the fraction-free elimination
+   computes the rank of the generated lattice, independent of the spanning tree chosen by [relax]
+   and of the order of the pairs). *)
+Definition C09_invariance_full_statement : Prop :=
+  forall n p E E', wf_E n p E = true -> represent n E E' -> dim_spec n p E = dim_spec n p E'.
+
+(* PROVED: the covering-graph counting theorem for the code mirror *)
+Definition C09_full_statement : Prop :=
+  forall n p E, wf_E n p E = true -> (0 < n)%nat -> connectedE n p E ->
+    (ncomp (adj2_of n (lab_of (nbr_tab n p E))) (seq 0 (2 ^ npbc p * n)) * length (Kset n p E) = 2 ^ npbc p)%nat.
+Theorem C09_full_statement_holds : C09_full_statement.
+Proof. intros n p E wf Hn Hc. apply count_2x; assumption. Qed.
+
+(* ========================================================================================== *)
+(* Part 5: K is the GF(2)-span of the cycle voltages *)
+Local Open Scope nat_scope.
+
+Ltac xor_solve :=
+  apply Nat.bits_inj; intro; rewrite ?Nat.lxor_spec, ?Nat.bits_0;
+  repeat match goal with |- context [Nat.testbit ?a ?t] => destruct (Nat.testbit a t) end; reflexivity.
+
+(* ---- span2 -------------------------------------------------------------------------------- *)
+Inductive gen (vs : list nat) : nat -> Prop :=
+| gen_0 : gen vs 0
+| gen_step a v : gen vs a -> In v vs -> gen vs (Nat.lxor a v).
+
+Lemma span2_zero vs : In 0 (span2 vs).
+Proof.
+  induction vs as [|v r IH]; simpl; [left; reflexivity|].
+  destruct (mem v (span2 r)); [assumption | apply in_or_app; left; assumption].
+Qed.
+
+Lemma span2_closed vs : forall a b, In a (span2 vs) -> In b (span2 vs) -> In (Nat.lxor a b) (span2 vs).
+Proof.
+  induction vs as [|v r IH]; simpl.
+  - intros a b [<-|[]] [<-|[]]. left. reflexivity.
+  - destruct (mem v (span2 r)) eqn:E; [exact IH|].
+    intros a b Ha Hb. apply in_app_or in Ha. apply in_app_or in Hb. apply in_or_app.
+    destruct Ha as [Ha|Ha], Hb as [Hb|Hb].
+    + left. apply IH; assumption.
+    + right. apply in_map_iff in Hb. destruct Hb as [s [<- Hs]]. apply in_map_iff.
+      exists (Nat.lxor a s). split; [xor_solve | apply IH; assumption].
+    + right. apply in_map_iff in Ha. destruct Ha as [s [<- Hs]]. apply in_map_iff.
+      exists (Nat.lxor s b). split; [xor_solve | apply IH; assumption].
+    + left. apply in_map_iff in Ha. destruct Ha as [s [<- Hs]]. apply in_map_iff in Hb. destruct Hb as [s' [<- Hs']].
+      replace (Nat.lxor (Nat.lxor v s) (Nat.lxor v s')) with (Nat.lxor s s') by xor_solve. apply IH; assumption.
+Qed.
+
+Lemma span2_contains vs v : In v vs -> In v (span2 vs).
+Proof.
+  induction vs as [|w r IH]; simpl; [intros []|].
+  intros [->|H].
+  - destruct (mem v (span2 r)) eqn:E; [apply mem_In; assumption|].
+    apply in_or_app. right. apply in_map_iff. exists 0. split; [apply Nat.lxor_0_r | apply span2_zero].
+  - specialize (IH H). destruct (mem w (span2 r)); [assumption | apply in_or_app; left; assumption].
+Qed.
+
+Lemma gen_in_span vs a : gen vs a -> In a (span2 vs).
+Proof.
+  induction 1 as [|a v Hg IH Hv]; [apply span2_zero|].
+  apply span2_closed; [assumption | apply span2_contains; assumption].
+Qed.
+
+Lemma gen_mono v vs a : gen vs a -> gen (v :: vs) a.
+Proof. induction 1; [constructor | constructor; [assumption | right; assumption]]. Qed.
+
+Lemma span_in_gen vs a : In a (span2 vs) -> gen vs a.
+Proof.
+  revert a. induction vs as [|v r IH]; simpl; intros a Ha.
+  - destruct Ha as [<-|[]]. constructor.
+  - destruct (mem v (span2 r)) eqn:E.
+    + apply gen_mono. apply IH. assumption.
+    + apply in_app_or in Ha. destruct Ha as [Ha|Ha]; [apply gen_mono, IH; assumption|].
+      apply in_map_iff in Ha. destruct Ha as [s [<- Hs]]. rewrite Nat.lxor_comm.
+      constructor; [apply gen_mono, IH; assumption | left; reflexivity].
+Qed.
+
+Lemma span2_nodup vs : NoDup (span2 vs).
+Proof.
+  induction vs as [|v r IH]; simpl; [repeat constructor; intros []|].
+  destruct (mem v (span2 r)) eqn:E; [assumption|].
+  apply nodup_app; [assumption | |].
+  - apply FinFun.Injective_map_NoDup; [|assumption]. intros x y Hxy.
+    rewrite (Nat.lxor_comm v x), (Nat.lxor_comm v y) in Hxy. eapply lxor_cancel_r; eauto.
+  - intros x Hx Hx'. apply in_map_iff in Hx'. destruct Hx' as [s [Hs Hs']].
+    assert (Hv : In v (span2 r)).
+    { replace v with (Nat.lxor x s) by (subst x; xor_solve). apply span2_closed; assumption. }
+    apply mem_In in Hv. congruence.
+Qed.
+
+(* ---- potentials --------------------------------------------------------------------------- *)
+Lemma nth_set_nth_eq {A} (l : list A) k x d : k < length l -> nth k (set_nth k x l) d = x.
+Proof. revert k. induction l as [|h r IH]; intros k Hk; simpl in *; [lia|]. destruct k; simpl; [reflexivity | apply IH; lia]. Qed.
+Lemma nth_set_nth_neq {A} (l : list A) k k' x d : k <> k' -> nth k' (set_nth k x l) d = nth k' l d.
+Proof.
+  revert k k'. induction l as [|h r IH]; intros k k' Hne; [destruct k, k'; reflexivity|].
+  destruct k, k'; simpl; try reflexivity; try lia. apply IH. lia.
+Qed.
+Lemma set_nth_length {A} (l : list A) k x : length (set_nth k x l) = length l.
+Proof. revert k. induction l as [|h r IH]; intros k; [destruct k; reflexivity|]. destruct k; simpl; [reflexivity | rewrite IH; reflexivity]. Qed.
+
+Definition potf (pot : list (option off)) (i : nat) : off :=
+  match nth i pot None with Some q => q | None => ozero end.
+
+Section KSpan.
+Variables (n : nat) (p : pbc3) (E : list ipair).
+Hypothesis wf : wf_E n p E = true.
+Hypothesis n_pos : 0 < n.
+Let k := npbc p.
+Let lab := lab_of (nbr_tab n p E).
+Let R := reach (adj2 n lab) (V2 n k).
+Let vx := vtx n.
+
+Let lab_sym := lab_of_sym n p E.
+
+Lemma R00 : In (vx 0 0) (V2 n k).
+Proof. apply vtx_in; [assumption | apply (M_pos n k n_pos) | assumption]. Qed.
+
+Lemma step_edge c i j o : c < 2 ^ k -> In (i, j, o) (sym E) ->
+  R (vx 0 0) (vx c i) -> R (vx 0 0) (vx (Nat.lxor c (mask p o)) j).
+Proof.
+  intros Hc Hin HR. destruct (wf_sym n p E wf _ _ _ Hin) as [Hi Hj].
+  eapply reach_step; [exact HR | |].
+  - apply vtx_in; [assumption | apply lxor_lt_pow2; [assumption | apply mask_bound] | assumption].
+  - unfold vx. rewrite (adj2_vtx n k n_pos) by assumption. apply orb_true_iff. right.
+    replace (Nat.lxor c (Nat.lxor c (mask p o))) with (mask p o) by xor_solve.
+    apply lab_of_spec; [assumption|]. exists o. split; [assumption | reflexivity].
+Qed.
+
+(* invariant of the relaxation: a placed atom i at lattice position q is joined, in the 2x graph, from copy 0 of
+   atom 0 to copy (parity of q) of atom i *)
+Definition Pinv (pot : list (option off)) : Prop :=
+  length pot = n /\ nth 0 pot None = Some ozero /\
+  forall i q, nth i pot None = Some q -> i < n /\ R (vx 0 0) (vx (mask p q) i).
+
+Lemma Pinv_init : Pinv (set_nth 0 (Some ozero) (repeat None n)).
+Proof.
+  split; [rewrite set_nth_length, repeat_length; reflexivity|]. split.
+  - apply nth_set_nth_eq. rewrite repeat_length. assumption.
+  - intros i q H. destruct (Nat.eq_dec i 0) as [->|Hne].
+    + rewrite nth_set_nth_eq in H by (rewrite repeat_length; assumption). injection H as <-.
+      split; [assumption|]. rewrite mask_ozero. constructor.
+    + rewrite nth_set_nth_neq in H by lia. exfalso. clear - H.
+      assert (Hr : forall m t, nth t (repeat (@None off) m) None = None) by (induction m as [|m IHm]; intros [|t]; simpl; auto).
+      rewrite Hr in H. discriminate.
+Qed.
+
+Lemma Pinv_relax es : incl es (sym E) -> forall pot, Pinv pot -> Pinv (relax es pot).
+Proof.
+  induction es as [|[[i j] o] r IH]; intros Hes pot HP; simpl; [assumption|].
+  apply IH; [intros e He; apply Hes; right; assumption|].
+  destruct (nth i pot None) as [pi|] eqn:Ei; [|assumption].
+  destruct (nth j pot None) as [pj|] eqn:Ej; [assumption|].
+  destruct HP as [Hlen [H0 Hall]].
+  assert (Hin : In (i, j, o) (sym E)) by (apply Hes; left; reflexivity).
+  destruct (wf_sym n p E wf _ _ _ Hin) as [Hi Hj].
+  split; [rewrite set_nth_length; assumption|]. split.
+  - rewrite nth_set_nth_neq; [assumption|]. intros ->. congruence.
+  - intros i' q Hq. destruct (Nat.eq_dec i' j) as [->|Hne].
+    + rewrite nth_set_nth_eq in Hq by lia. injection Hq as <-. split; [assumption|].
+      rewrite mask_oadd. destruct (Hall i pi Ei) as [_ HR].
+      apply (step_edge _ i j o); [apply mask_bound | assumption | assumption].
+    + rewrite nth_set_nth_neq in Hq by lia. apply Hall. assumption.
+Qed.
+
+Lemma Pinv_relax_n m : forall pot, Pinv pot -> Pinv (relax_n m (sym E) pot).
+Proof. induction m as [|m IH]; intros pot HP; simpl; [assumption|]. apply IH. apply Pinv_relax; [apply incl_refl | assumption]. Qed.
+
+Lemma Pinv_potentials : Pinv (potentials n E).
+Proof. apply Pinv_relax_n. apply Pinv_init. Qed.
+
+(* ---- all atoms placed -------------------------------------------------------------------- *)
+Let pot := potentials n E.
+Hypothesis placed : all_placed pot = true.
+
+Lemma placed_nth i : i < n -> nth i pot None = Some (potf pot i).
+Proof.
+  intros Hi. unfold potf. destruct (nth i pot None) eqn:Ei; [reflexivity|]. exfalso.
+  unfold all_placed in placed. rewrite forallb_forall in placed.
+  assert (Hin : In (nth i pot None) pot) by (apply nth_In; destruct Pinv_potentials as [Hl _]; fold pot in Hl; lia).
+  specialize (placed _ Hin). rewrite Ei in placed. discriminate.
+Qed.
+Lemma pot_reach i : i < n -> R (vx 0 0) (vx (mask p (potf pot i)) i).
+Proof. intros Hi. destruct Pinv_potentials as [_ [_ Hall]]. apply (Hall i). apply placed_nth. assumption. Qed.
+Lemma pot0 : potf pot 0 = ozero.
+Proof. destruct Pinv_potentials as [_ [H0 _]]. unfold potf. fold pot in H0. rewrite H0. reflexivity. Qed.
+
+Definition vmask (e : ipair) : nat :=
+  let '(i, j, o) := e in Nat.lxor (Nat.lxor (mask p (potf pot i)) (mask p o)) (mask p (potf pot j)).
+Definition vmasks : list nat := map (mask p) (voltages pot E).
+
+Lemma vmasks_eq : vmasks = map vmask E.
+Proof.
+  unfold vmasks, voltages. rewrite map_map. apply map_ext_in. intros [[i j] o] Hin.
+  assert (Hs : In (i, j, o) (sym E)) by (unfold sym; apply in_or_app; left; assumption).
+  destruct (wf_sym n p E wf _ _ _ Hs) as [Hi Hj].
+  rewrite (placed_nth i Hi), (placed_nth j Hj). unfold osub, vmask. rewrite !mask_oadd, mask_oneg. reflexivity.
+Qed.
+
+Lemma vmask_sym i j o : In (i, j, o) (sym E) -> In (vmask (i, j, o)) vmasks.
+Proof.
+  intros Hin. rewrite vmasks_eq. unfold sym in Hin. apply in_app_or in Hin. destruct Hin as [Hin|Hin].
+  - apply in_map. assumption.
+  - apply in_map_iff in Hin. destruct Hin as [[[i' j'] o'] [Heq He]]. simpl in Heq. injection Heq as <- <- <-.
+    apply in_map_iff. exists (i', j', o'). split; [|assumption]. unfold vmask. rewrite mask_oneg. xor_solve.
+Qed.
+
+Lemma mask_potf_bound i : mask p (potf pot i) < 2 ^ k. Proof. apply mask_bound. Qed.
+
+(* membership in K *)
+Lemma K_iff a : In a (Kset n p E) <-> a < 2 ^ k /\ R (vx 0 0) (vx a 0).
+Proof.
+  unfold Kset, K. fold k. fold lab. rewrite filter_In, in_seq. unfold R, vx.
+  rewrite (reachb_iff (adj2 n lab) (V2 n k) (V2_nodup n k) (vtx n 0 0) (vtx n a 0) R00).
+  simpl. split; intros [H1 H2]; (split; [lia | assumption]).
+Qed.
+
+Lemma K_closed a b : In a (Kset n p E) -> In b (Kset n p E) -> In (Nat.lxor a b) (Kset n p E).
+Proof.
+  rewrite !K_iff. intros [Ha HRa] [Hb HRb]. split; [apply lxor_lt_pow2; assumption|].
+  pose proof (translate n k n_pos lab a Ha _ _ R00 HRb) as H.
+  unfold vx in H. rewrite !(vtx_div n k n_pos), !(vtx_mod n k n_pos), Nat.lxor_0_l in H by assumption.
+  rewrite (Nat.lxor_comm a b). eapply R_trans; [exact HRa | exact H].
+Qed.
+
+Lemma vmask_in_K e : In e (sym E) -> In (vmask e) (Kset n p E).
+Proof.
+  destruct e as [[i j] o]. intros Hin. destruct (wf_sym n p E wf _ _ _ Hin) as [Hi Hj].
+  set (mi := mask p (potf pot i)). set (mj := mask p (potf pot j)). set (mo := mask p o).
+  assert (Hv : vmask (i, j, o) < 2 ^ k) by (unfold vmask; repeat apply lxor_lt_pow2; apply mask_bound).
+  apply K_iff. split; [assumption|].
+  (* (0,0) ~ (mi xor mo, j)   and   (v,0) ~ (mj xor v, j) = (mi xor mo, j) *)
+  assert (H1 : R (vx 0 0) (vx (Nat.lxor mi mo) j)) by (apply (step_edge _ i j o); [apply mask_bound | assumption | apply pot_reach; assumption]).
+  pose proof (translate n k n_pos lab _ Hv _ _ R00 (pot_reach j Hj)) as H2.
+  unfold vx in H2. rewrite !(vtx_div n k n_pos), !(vtx_mod n k n_pos), Nat.lxor_0_l in H2 by assumption.
+  replace (Nat.lxor (mask p (potf pot j)) (vmask (i, j, o))) with (Nat.lxor mi mo) in H2 by (unfold vmask, mi, mo; xor_solve).
+  eapply R_trans; [exact H1|].
+  apply (R_sym n k n_pos lab lab_sym); [apply vtx_in; assumption | exact H2].
+Qed.
+
+Lemma span_sub_K a : In a (span2 vmasks) -> In a (Kset n p E).
+Proof.
+  intros H. apply span_in_gen in H. induction H as [|a v Hg IH Hv].
+  - apply K_iff. split; [apply (M_pos n k n_pos) | constructor].
+  - apply K_closed; [assumption|]. rewrite vmasks_eq in Hv. apply in_map_iff in Hv. destruct Hv as [e [<- He]].
+    apply vmask_in_K. unfold sym. apply in_or_app. left. assumption.
+Qed.
+
+Lemma reach_in_span u : R (vx 0 0) u -> In (Nat.lxor (u / n) (mask p (potf pot (u mod n)))) (span2 vmasks).
+Proof.
+  intros H. induction H as [|x y Hr IH HyV Hxy].
+  - unfold vx. rewrite (vtx_div n k n_pos), (vtx_mod n k n_pos), pot0, mask_ozero by assumption. apply span2_zero.
+  - assert (HxV : In x (V2 n k)) by (apply (reach_in_V _ _ _ _ R00 Hr)).
+    destruct (in_V2_inv n k n_pos x HxV) as [_ [Hxd Hxm]]. destruct (in_V2_inv n k n_pos y HyV) as [_ [Hyd Hym]].
+    unfold adj2 in Hxy. apply orb_true_iff in Hxy. destruct Hxy as [Hxy|Hxy].
+    + apply Nat.eqb_eq in Hxy. subst y. assumption.
+    + apply lab_of_spec in Hxy; [|assumption]. destruct Hxy as [o [Hin Hm]].
+      pose proof (vmask_sym _ _ _ Hin) as Hv. apply span2_contains in Hv.
+      pose proof (span2_closed _ _ _ IH Hv) as Hc.
+      replace (Nat.lxor (y / n) (mask p (potf pot (y mod n)))) with
+        (Nat.lxor (Nat.lxor (x / n) (mask p (potf pot (x mod n)))) (vmask (x mod n, y mod n, o))); [exact Hc|].
+      unfold vmask. rewrite Hm. xor_solve.
+Qed.
+
+Lemma K_sub_span a : In a (Kset n p E) -> In a (span2 vmasks).
+Proof.
+  rewrite K_iff. intros [Ha HR]. pose proof (reach_in_span _ HR) as H.
+  unfold vx in H. rewrite (vtx_div n k n_pos), (vtx_mod n k n_pos), pot0, mask_ozero, Nat.lxor_0_r in H by assumption. exact H.
+Qed.
+
+Theorem K_is_span : length (Kset n p E) = length (span2 vmasks).
+Proof.
+  apply Nat.le_antisymm; apply NoDup_incl_length.
+  - unfold Kset, K. apply NoDup_filter. apply seq_NoDup.
+  - intros a. apply K_sub_span.
+  - apply span2_nodup.
+  - intros a. apply span_sub_K.
+Qed.
+
+(* all atoms placed: the cell contents are connected *)
+Lemma placed_connected : connectedE n p E.
+Proof.
+  (* base reachability from 0: project the 2x path *)
+  assert (Hproj : forall u, R (vx 0 0) u -> reach (adj1_of (nbr_tab n p E)) (seq 0 n) 0 (u mod n)).
+  { intros u H. induction H as [|x y Hr IH HyV Hxy].
+    - unfold vx. rewrite (vtx_mod n k n_pos) by assumption. constructor.
+    - assert (HxV : In x (V2 n k)) by (apply (reach_in_V _ _ _ _ R00 Hr)).
+      destruct (in_V2_inv n k n_pos x HxV) as [_ [_ Hxm]]. destruct (in_V2_inv n k n_pos y HyV) as [_ [_ Hym]].
+      eapply reach_step; [exact IH | apply in_seq; simpl; lia |].
+      apply adj1_of_spec; [assumption|].
+      unfold adj2 in Hxy. apply orb_true_iff in Hxy. destruct Hxy as [Hxy|Hxy].
+      + apply Nat.eqb_eq in Hxy. subst y. left. reflexivity.
+      + apply lab_of_spec in Hxy; [|assumption]. destruct Hxy as [o [Hin _]]. right. exists o. assumption. }
+  assert (H0 : forall i, i < n -> reach (adj1_of (nbr_tab n p E)) (seq 0 n) 0 i).
+  { intros i Hi. pose proof (Hproj _ (pot_reach i Hi)) as H. unfold vx in H. rewrite (vtx_mod n k n_pos) in H by assumption. exact H. }
+  intros i j Hi Hj.
+  apply reach_trans with 0; [|apply H0; assumption].
+  assert (Hsym : forall u v, In u (seq 0 n) -> In v (seq 0 n) -> adj1_of (nbr_tab n p E) u v = adj1_of (nbr_tab n p E) v u).
+  { intros u v Hu Hv. apply in_seq in Hu. apply in_seq in Hv. apply adj1_of_sym; simpl in *; lia. }
+  apply (reach_sym _ _ Hsym 0 i); [apply in_seq; simpl; lia | apply H0; assumption].
+Qed.
+End KSpan.
+
+(* ========================================================================================== *)
+(* Part 6: the relaxation places every atom of a connected cell (n sweeps suffice) *)
+Definition is_placed (pot : list (option off)) (i : nat) : Prop := nth i pot None <> None.
+
+Definition relax1 (e : ipair) (pot : list (option off)) : list (option off) :=
+  let '(i, j, o) := e in
+  match nth i pot None, nth j pot None with
+  | Some pi, None => set_nth j (Some (oadd pi o)) pot
+  | _, _ => pot
+  end.
+Lemma relax_cons e es pot : relax (e :: es) pot = relax es (relax1 e pot).
+Proof. destruct e as [[i j] o]. reflexivity. Qed.
+
+Lemma relax1_length e pot : length (relax1 e pot) = length pot.
+Proof. destruct e as [[i j] o]. unfold relax1. destruct (nth i pot None), (nth j pot None); try reflexivity. apply set_nth_length. Qed.
+Lemma relax1_mono e pot x : is_placed pot x -> is_placed (relax1 e pot) x.
+Proof.
+  destruct e as [[i j] o]. unfold relax1, is_placed. intros H.
+  destruct (nth i pot None) as [pi|]; [|assumption]. destruct (nth j pot None) eqn:Ej; [assumption|].
+  destruct (Nat.eq_dec j x) as [->|Hne]; [congruence|]. rewrite nth_set_nth_neq by assumption. assumption.
+Qed.
+Lemma relax1_edge i j o pot : j < length pot -> is_placed pot i -> is_placed (relax1 (i, j, o) pot) j.
+Proof.
+  unfold relax1, is_placed. intros Hj Hi. destruct (nth i pot None) as [pi|]; [|congruence].
+  destruct (nth j pot None) eqn:Ej; [congruence|]. rewrite nth_set_nth_eq by assumption. discriminate.
+Qed.
+
+Lemma relax_length es : forall pot, length (relax es pot) = length pot.
+Proof. induction es as [|e r IH]; intros pot; [reflexivity|]. rewrite relax_cons, IH. apply relax1_length. Qed.
+Lemma relax_mono es : forall pot x, is_placed pot x -> is_placed (relax es pot) x.
+Proof. induction es as [|e r IH]; intros pot x H; [assumption|]. rewrite relax_cons. apply IH. apply relax1_mono. assumption. Qed.
+Lemma relax_edge es : forall pot i j o, In (i, j, o) es -> j < length pot -> is_placed pot i -> is_placed (relax es pot) j.
+Proof.
+  induction es as [|e r IH]; intros pot i j o Hin Hj Hi; [destruct Hin|]. rewrite relax_cons.
+  destruct Hin as [->|Hin].
+  - apply relax_mono. apply relax1_edge; assumption.
+  - apply (IH _ i j o); [assumption | rewrite relax1_length; assumption | apply relax1_mono; assumption].
+Qed.
+Lemma relax_n_length m es : forall pot, length (relax_n m es pot) = length pot.
+Proof. induction m as [|m IH]; intros pot; [reflexivity|]. simpl. rewrite IH. apply relax_length. Qed.
+Lemma relax_n_mono m es : forall pot x, is_placed pot x -> is_placed (relax_n m es pot) x.
+Proof. induction m as [|m IH]; intros pot x H; [assumption|]. simpl. apply IH. apply relax_mono. assumption. Qed.
+
+Section RelaxComplete.
+Variables (n : nat) (p : pbc3) (E : list ipair).
+Hypothesis wf : wf_E n p E = true.
+Hypothesis n_pos : 0 < n.
+Let tab := nbr_tab n p E.
+Let A1 := adj1_of tab.
+Let V := seq 0 n.
+
+(* sweep t places at least the t-th layer of the breadth-first search of Base/Graph.v *)
+Lemma grow_placed f : forall S pot, length pot = n -> incl S V ->
+  (forall x, In x S -> is_placed pot x) ->
+  forall x, In x (grow A1 V f S) -> is_placed (relax_n f (sym E) pot) x.
+Proof.
+  induction f as [|f IH]; intros S pot Hlen HS Hpl x Hx; simpl in *; [apply Hpl; assumption|].
+  destruct (frontier A1 V S) as [|u fr] eqn:Ef.
+  - apply relax_n_mono. apply relax_mono. apply Hpl. assumption.
+  - apply (IH (S ++ u :: fr)); [rewrite relax_length; assumption | | | assumption].
+    + intros y Hy. apply in_app_or in Hy. destruct Hy as [Hy|Hy]; [apply HS; assumption|].
+      rewrite <- Ef in Hy. apply frontier_spec in Hy. tauto.
+    + intros y Hy. apply in_app_or in Hy. destruct Hy as [Hy|Hy]; [apply relax_mono, Hpl; assumption|].
+      rewrite <- Ef in Hy. apply frontier_spec in Hy. destruct Hy as [HyV [_ [s [Hs Hadj]]]].
+      assert (Hsn : s < n) by (apply HS in Hs; apply in_seq in Hs; simpl in Hs; lia).
+      assert (Hyn : y < n) by (apply in_seq in HyV; simpl in HyV; lia).
+      apply (adj1_of_spec n p E s y Hsn) in Hadj. destruct Hadj as [->|[o Ho]]; [apply relax_mono, Hpl; assumption|].
+      apply (relax_edge _ _ s y o Ho); [lia | apply Hpl; assumption].
+Qed.
+
+Theorem connected_all_placed : connectedE n p E -> all_placed (potentials n E) = true.
+Proof.
+  intros Hc. unfold all_placed. apply forallb_forall. intros q Hq.
+  destruct (In_nth _ _ None Hq) as [i [Hi Hnth]].
+  set (pot0 := set_nth 0 (Some ozero) (repeat None n)).
+  assert (Hlen0 : length pot0 = n) by (unfold pot0; rewrite set_nth_length, repeat_length; reflexivity).
+  unfold potentials in *. fold pot0 in Hi, Hnth, Hq |- *. rewrite relax_n_length, Hlen0 in Hi.
+  assert (Hpl : is_placed (relax_n n (sym E) pot0) i).
+  { replace n with (length V) at 1 by (unfold V; apply seq_length).
+    apply (grow_placed (length V) [0] pot0 Hlen0).
+    - intros y [<-|[]]. apply in_seq. simpl. lia.
+    - intros y [<-|[]]. unfold is_placed, pot0. rewrite nth_set_nth_eq by (rewrite repeat_length; assumption). discriminate.
+    - change (In i (component A1 V 0)). apply component_complete; [apply seq_NoDup | apply in_seq; simpl; lia |].
+      apply Hc; assumption. }
+  unfold is_placed in Hpl. rewrite Hnth in Hpl. destruct q; [reflexivity | congruence].
+Qed.
+End RelaxComplete.
+
+(* ========================================================================================== *)
+(* Part 7: the code mirror equals the GF(2) half of the specification *)
+Theorem spec_none_iff_disconnected n p E : wf_E n p E = true -> (0 < n)%nat ->
+  (dim_spec n p E = None <-> ~ connectedE n p E).
+Proof.
+  intros wf Hn. unfold dim_spec. destruct (all_placed (potentials n E)) eqn:Ep.
+  - split; [discriminate|]. intros H. exfalso. apply H. apply placed_connected; assumption.
+  - split; [|reflexivity]. intros _ Hc. rewrite (connected_all_placed n p E Hn Hc) in Ep. discriminate.
+Qed.
+
+Theorem mirror_eq_spec2 n p E : wf_E n p E = true -> (0 < n)%nat ->
+  get_dim_graph n p E = match dim_spec n p E with Some (r2, _) => Some (Z.of_nat r2) | None => None end.
+Proof.
+  intros wf Hn. pose proof (spec_none_iff_disconnected n p E wf Hn) as Hnone.
+  unfold dim_spec in *. destruct (all_placed (potentials n E)) eqn:Ep.
+  - assert (Hc : connectedE n p E) by (apply placed_connected; assumption).
+    pose proof (K_is_span n p E wf Hn Ep) as HK. unfold vmasks in HK.
+    unfold rank2. rewrite <- HK.
+    destruct (Nat.eq_dec (npbc p) 0) as [Hk0|Hk0].
+    + rewrite (dim0_without_pbc_graph n p E Hk0 Hc).
+      pose proof (count_2x n p E Hn Hc) as Hcnt. rewrite Hk0 in Hcnt. simpl in Hcnt.
+      apply Nat.eq_mul_1 in Hcnt. destruct Hcnt as [_ ->]. reflexivity.
+    + destruct (formula_is_log2K n p E Hn) as [d [_ [HKd ->]]]; [lia | assumption|].
+      rewrite HKd, Nat.log2_pow2 by lia. reflexivity.
+  - unfold get_dim_graph. apply none_iff_not_connected; [apply adj1_of_sym|]. apply Hnone. reflexivity.
+Qed.
+
+(* PROVED (was C09_K_is_rank2_full_statement): |K| = 2^rank2 *)
+Theorem K_is_rank2 n p E r2 rz : wf_E n p E = true -> (0 < n)%nat -> dim_spec n p E = Some (r2, rz) ->
+  length (Kset n p E) = (2 ^ r2)%nat.
+Proof.
+  intros wf Hn Hs. unfold dim_spec in Hs. destruct (all_placed (potentials n E)) eqn:Ep; [|discriminate].
+  injection Hs as <- _.
+  assert (Hc : connectedE n p E) by (apply placed_connected; assumption).
+  pose proof (K_is_span n p E wf Hn Ep) as HK. unfold vmasks in HK. unfold rank2. rewrite <- HK.
+  destruct (mul_pow2 _ _ _ (count_2x n p E Hn Hc)) as [j [Hj [_ HKd]]].
+  rewrite HKd, Nat.log2_pow2 by lia. reflexivity.
+Qed.
